@@ -217,7 +217,15 @@ func (aq *Ackqueue) insert(pktid uint16, msg message.Message, onComplete interfa
 		aq.grow()
 	}
 
-	if _, ok := aq.emap[pktid]; !ok {
+	// An entry that has got its final acknowledgement and is only waiting for the
+	// entries in front of it to be handed back is a finished exchange: the peer is
+	// free to use its packet ID again, and what comes with it then is a new request.
+	i, ok := aq.emap[pktid]
+	if ok && aq.terminal(aq.ring[i].State) {
+		ok = false
+	}
+
+	if !ok {
 		// message length
 		ml := msg.Len()
 
@@ -263,14 +271,27 @@ func (aq *Ackqueue) removeHead() error {
 		return errQueueEmpty
 	}
 
-	it := aq.ring[aq.head]
+	head := aq.head
+	it := aq.ring[head]
 	// set this to empty ackmsg{} to ensure GC will collect the buffer
-	aq.ring[aq.head] = AckMsg{}
+	aq.ring[head] = AckMsg{}
 	aq.head = aq.increment(aq.head)
 	aq.count--
-	delete(aq.emap, it.Pktid)
+	// the packet ID may belong to a newer entry by now (see insert)
+	if i, ok := aq.emap[it.Pktid]; ok && i == head {
+		delete(aq.emap, it.Pktid)
+	}
 
 	return nil
+}
+
+// terminal reports whether an entry in this state has completed its ack cycle.
+func (aq *Ackqueue) terminal(state message.Type) bool {
+	switch state {
+	case message.PUBACK, message.PUBREL, message.PUBCOMP, message.SUBACK, message.UNSUBACK:
+		return true
+	}
+	return false
 }
 
 func (aq *Ackqueue) grow() {
